@@ -374,6 +374,47 @@ func Run(c *core.Ctx) {
 		}
 		fn.Events = append(fn.Events, core.Ev(map[string]any{"e": "codec", "kind": "frame", "class": n, "err": err != nil, "equal": ok}))
 	}
+	// the codecs under concurrent use (flushers of several peers, storage and forwarding encode at the same time and
+	// share the encoder pool): 12 goroutines encode and decode frames / messages of their own; one event per goroutine
+	{
+		rounds := 150
+		if !c.Quick() {
+			rounds = 2500
+		}
+		okAll := make([]bool, 12)
+		var wg sync.WaitGroup
+		for g := 0; g < 12; g++ {
+			wg.Add(1)
+			go func(g int) {
+				defer wg.Done()
+				r := rand.New(rand.NewSource(c.Seed*13 + int64(g)))
+				ok := true
+				for i := 0; i < rounds && ok; i++ {
+					var fr message.Frame
+					for j := 0; j < 1+r.Intn(6); j++ {
+						fr = append(fr, message.Message{ID: message.NewID(ssids[(g+j)%len(ssids)]), Channel: []byte(fmt.Sprintf("g%d/m%d/", g, j)),
+							Payload: bytes.Repeat([]byte{byte(1 + g*7 + j)}, []int{0, 10, 3000, 120000}[r.Intn(4)]), TTL: uint32(g*1000 + i)})
+					}
+					d, err := message.DecodeFrame(fr.Encode())
+					ok = err == nil && len(d) == len(fr)
+					for x := 0; ok && x < len(fr); x++ {
+						ok = eq(d[x], fr[x])
+					}
+					if ok {
+						one := fr[0]
+						dm, err := message.DecodeMessage(one.Encode())
+						ok = err == nil && eq(dm, fr[0])
+					}
+				}
+				okAll[g] = ok
+			}(g)
+		}
+		wg.Wait()
+		for g, ok := range okAll {
+			fn.Events = append(fn.Events, core.Ev(map[string]any{"e": "codec", "kind": "concurrent", "class": g, "err": false, "equal": ok}))
+		}
+		c.Add("concurrent_codec_round_trips", int64(12*rounds))
+	}
 	c.Add("evaluations", int64(len(fn.Events)))
 	c.Sample(map[string]any{"part": "functional contracts", "events_head": []json.RawMessage{fn.Events[0], fn.Events[len(frames)/2], fn.Events[len(fn.Events)-1]}})
 	// each functional event is validated on its own so that a listed finding does not hide the others
